@@ -290,7 +290,7 @@ TEXT_REWRITES = {}
 
 
 def probe_run(prog, info, selectors, x, driver, part=None, kind="inst", raw=False, overridable=False,
-              setup=None, probe_type=None):
+              setup=None, probe_type=None, late_raw=None):
     """Activate one probe per selector (in order), call f, deactivate in reverse order.
 
     Returns (obs, streams) where streams[i] is the list of frozen events of probe i, or
@@ -311,12 +311,19 @@ def probe_run(prog, info, selectors, x, driver, part=None, kind="inst", raw=Fals
                 streams[i].append({k: P.freeze(v) for k, v in ev.items()})
         return on
 
+    kept = []
     try:
         for i, s in enumerate(selectors):
             p = probing(s, env={"f": w.f, **w.ns}, raw=raw, overridable=overridable, probe_type=probe_type)
             p.subscribe(sub(i))
             if setup:
                 setup(i, p)
+            p.__enter__()
+            probes.append(p)
+        if late_raw is not None:
+            # a raw probe on the first selector whose events are kept and only read after the call
+            p = probing(selectors[0], env={"f": w.f, **w.ns}, raw=True)
+            p.subscribe(kept.append)
             p.__enter__()
             probes.append(p)
     except BaseException as e:
@@ -336,6 +343,9 @@ def probe_run(prog, info, selectors, x, driver, part=None, kind="inst", raw=Fals
                 p.__exit__(None, None, None)
             except BaseException:
                 pass
+    if late_raw is not None:
+        for ev in kept:
+            late_raw.append({k: (P.freeze(c.values[-1]) if c.values else "<no value>") for k, c in ev.items()})
     if world.clean_state_problems(w.f, w.orig_code):
         if part is not None:
             part["counters"]["world-rebuilt-unclean"] += 1
